@@ -101,6 +101,13 @@ def CBody.taskMeaningF : CBody → Option Fml
   | .startSynced t1 t2 => some (sched2 t1 t2 (.eq t1.sVar t2.sVar))
   | .endSynced t1 t2 => some (sched2 t1 t2 (.eq t1.eVar t2.eVar))
   | .dontOverlap t1 t2 => some (sched2 t1 t2 (.or [.le t1.eVar t2.sVar, .le t2.eVar t1.sVar]))
+  | .contiguous ts =>
+      -- without the sorting networks: whenever starts and ends are ordered alike, a task ending at a non-negative
+      -- instant is followed without a gap by its immediate successor by start (`ContiguousOK_pairwise`)
+      some (.imp (.and (ts.flatMap (fun x => ts.map (fun y => Fml.imp (.lt x.sVar y.sVar) (.lt x.eVar y.eVar)))))
+        (.and (ts.flatMap (fun a => ts.map (fun b =>
+          Fml.imp (.and (Fml.lt a.sVar b.sVar :: ts.map (fun c => Fml.not (.and [.lt a.sVar c.sVar, .lt c.sVar b.sVar]))))
+            (.imp (.and [.ge a.eVar (numT 0), .ge b.sVar (numT 0)]) (.eq b.sVar a.eVar)))))))
   | .unorderedGroup ts window len => some (.and (groupWindowF ts window len))
   | .orderedGroup ts window len kind => some (.and (groupWindowF ts window len ++ consecutiveF kind ts))
   | .scheduleN ts n ivs kind =>
@@ -169,6 +176,21 @@ def periodicInterruptedF (b : BusyRef) (t : Task) (ivs : List (Int × Int)) (p s
       Fml.or ([Fml.ge b.s (.add (numT iv.2) (periodShift b.s off p)),
                Fml.le b.e (.add (numT iv.1) (periodShift b.s off p))] ++ masks))
 
+/-- starts and ends of the busy intervals ordered alike -/
+def comonotoneF (busy : List BusyRef) : Fml :=
+  .and (busy.flatMap (fun x => busy.map (fun y => Fml.imp (.lt x.s y.s) (.lt x.e y.e))))
+
+/-- `b` is the immediate successor of `a` by start among the busy intervals -/
+def succF (busy : List BusyRef) (a b : BusyRef) : Fml :=
+  .and (Fml.lt a.s b.s :: busy.map (fun c => Fml.not (.and [.lt a.s c.s, .lt c.s b.s])))
+
+/-- the gap classes without sorting networks: whenever starts and ends are ordered alike (true of the disjoint busy
+    intervals of a worker), the relation `mk (end of a) (start of b)` holds for every interval `a` and its immediate
+    successor `b` (`GapsOK_pairwise`) -/
+def gapTwinF (busy : List BusyRef) (mk : Term → Term → Fml) : Fml :=
+  .imp (comonotoneF busy)
+    (.and (busy.flatMap (fun a => busy.map (fun b => Fml.imp (succF busy a b) (mk a.e b.s)))))
+
 def CBody.resMeaningF : CBody → Option Fml
   | .unavailable busy ivs =>
       some (.and (ivs.flatMap (fun iv => busy.map (fun b => Fml.or [.ge b.s (numT iv.2), .le b.e (numT iv.1)]))))
@@ -187,6 +209,10 @@ def CBody.resMeaningF : CBody → Option Fml
         Fml.or ([Fml.ge b.s (.add (numT iv.2) shift), Fml.le b.e (.add (numT iv.1) shift)] ++
           (if start ≥ 0 then [Fml.le b.e (numT start)] else []) ++
           (match end_ with | some en => [Fml.ge b.s (numT en)] | none => []))))))
+  | .nonDelay busy =>
+      some (gapTwinF busy (fun e s => Fml.imp (.and [.ge e (numT 0), .ge s (numT 0)]) (.eq s e)))
+  | .distance busy d ivs mode =>
+      some (gapTwinF busy (fun e s => distanceGap d ivs mode (e, s)))
   | .interrupted ws ivs =>
       if ivs.all (fun iv => decide (iv.1 < iv.2)) then
         some (.and (ws.flatMap (fun w => w.flatMap (fun bt => interruptedF bt.1 bt.2 ivs))))
